@@ -202,6 +202,65 @@ func C11(r *h.Run) {
 		}
 	}
 
+	// ---- names that net/http does not allow as HTTP trailers (RFC 7230 4.1.2: routing,
+	// request modifiers, authentication, caching controls) are still valid header names for an
+	// application to use as response trailers or error metadata ----
+	for _, proto := range protos {
+		for _, via := range []e2eTransport{viaHTTP1, viaHTTP2} {
+			for _, failing := range []bool{false, true} {
+				var copts []connect.ClientOption
+				switch proto {
+				case "grpc":
+					copts = append(copts, connect.WithGRPC())
+				case "grpcweb":
+					copts = append(copts, connect.WithGRPCWeb())
+				}
+				names := http.Header{"Cache-Control": {"no-store"}, "Www-Authenticate": {"Bearer realm=x"}, "If-Match": {"abc"}, "Max-Forwards": {"3"}}
+				ex := &e2eExtras{ResTrailer: names}
+				var retErr error
+				if failing {
+					ex.ResTrailer = http.Header{}
+					retErr = mkError(connect.CodeUnauthenticated, "who are you", 0, names)
+				}
+				res := runE2E(bytesValueKind, "server", via, copts, nil, [][]byte{{9}}, [][]byte{{1}}, retErr, 0, ex)
+				in := map[string]any{"proto": proto, "kind": "server", "via": via, "names": names, "carried_as": map[bool]string{false: "response trailers", true: "error metadata"}[failing]}
+				r.Eval("trailer_names", fmt.Sprint(proto, via, failing))
+				if res.Panic != nil {
+					r.Fail(h.Failure{Key: "metadata/panic-or-hang", Family: "trailer_names", What: fmt.Sprint(res.Panic), Input: in})
+					continue
+				}
+				var have []http.Header
+				if failing {
+					var ce *connect.Error
+					if errors.As(ex.ClientErr, &ce) {
+						have = []http.Header{ce.Meta()}
+					}
+				} else {
+					have = []http.Header{res.ResTrailer}
+				}
+				var missing []string
+				for k, vs := range names {
+					var got []string
+					for _, hd := range have {
+						got = append(got, hd.Values(k)...)
+					}
+					if !sublist(vs, got) {
+						missing = append(missing, k)
+					}
+				}
+				sort.Strings(missing)
+				r.Sample("trailer_names", map[string]any{"in": in, "missing": missing})
+				if len(missing) > 0 {
+					key := "metadata/trailer-names"
+					if proto == "grpc" && via == viaHTTP2 {
+						key = "metadata/grpc-http2/forbidden-trailer-names"
+					}
+					r.Fail(h.Failure{Key: key, Family: "trailer_names", What: "metadata the handler attached under these names did not reach the client", Input: in, Actual: missing})
+				}
+			}
+		}
+	}
+
 	// ---- a receiver that calls Receive again after the stream has ended (it keeps reporting
 	// the end): the trailers it can then look at are what the handler set, each value once ----
 	for _, proto := range protos {
